@@ -5,7 +5,9 @@ import (
 	"encoding/json"
 	"errors"
 	"fmt"
+	"io"
 	"math/big"
+	"os"
 	"regexp"
 	"runtime"
 	"runtime/debug"
@@ -13,7 +15,10 @@ import (
 	"strings"
 	"sync"
 	"sync/atomic"
+	"syscall"
 	"time"
+
+	logging "github.com/formancehq/go-libs/v5/pkg/observe/log"
 
 	ledgercontroller "github.com/formancehq/ledger/internal/controller/ledger"
 	"github.com/formancehq/ledger/internal/machine"
@@ -71,12 +76,20 @@ import (
 // Every input goes through compiler.Compile and, when it compiles, through
 // (1) NewMachine / SetVarsFromJSON / ResolveResources / ResolveBalances / Execute
 // / GetTxMetaJSON / GetAccountsMetaJSON directly and (2) the real
-// MachineNumscriptRuntimeAdapter.Execute on a fresh adapter, and (3, H) the cached
-// runtime after the executions that precede it in the history.
+// MachineNumscriptRuntimeAdapter.Execute on a fresh adapter — programs with `print`
+// included (stdout is pointed at /dev/null for the run) — once per LOGGER CONFIGURATION
+// of the request context (c27LoggerContexts: no logger, and a logger at trace / debug /
+// info / error level; G programs: all of them on the first input of a program, the bare
+// context on its failing inputs), every execution in its own goroutine under a deadline
+// (c27AnswerDeadline), and (3, H) the cached runtime after the executions that precede it
+// in the history.
 //
-// Oracle: no panic (recovered, reported with the input); the adapter returns a
+// Oracle: no panic (recovered, reported with the input); every adapter execution answers
+// (a result or an error) before its deadline — an execution that does not is reported as
+// `no answer` with its logger configuration, the run goes on, and the later executions of
+// the same (print / no print, logger) class are skipped and counted; the adapter returns a
 // nil result whenever it returns an error (and a result when it does not); no
-// case runs longer than 60 s (watchdog); H: an execution on the cached runtime returns
+// case runs longer than 60 s (watchdog over compile, the direct machine run and the histories); H: an execution on the cached runtime returns
 // exactly what the same input returns on a fresh one, whatever ran before it (no panic,
 // same postings and metadata, same error class) — "any program with any variables and
 // balances either succeeds or returns an error" has no clause about earlier requests.
@@ -112,6 +125,7 @@ var c27Seeds = []string{
 	"set_account_meta(@a, \"k\", 42)\nset_account_meta(@a, \"k2\", [COIN 7])\nset_account_meta(@b, \"k\", \"v\")\n",
 	"vars {\n number $n\n}\nset_tx_meta(\"k\", $n + 1 - 2)\nsend [COIN 1] + [COIN 2] (\n source = @world\n destination = @a\n)\n",
 	"print 1 + 2\nprint [COIN 1] - [COIN 1]\nprint @a\n",
+	"vars {\n monetary $mon\n}\nprint $mon\nsend $mon (\n source = @a\n destination = @b\n)\nprint @b\nset_tx_meta(\"k\", 1)\n",
 	"send [COIN 1] (\n source = @a\n destination = @b\n)\nfail\n",
 	"// comment\nsend [COIN 1] ( /* c */\n destination = @b\n source = @a\n)\n",
 	"send [COIN 5] (\n source = @a\n destination = @a\n)\nsend [USD/2 5] (\n source = {\n  @a allowing overdraft up to [USD/2 1]\n  @b\n }\n destination = {\n  remaining to @world\n }\n)\n",
@@ -199,11 +213,16 @@ func c27Join(toks []string) string {
 
 type c27Stats struct {
 	cases, compiled, ranOK, ranErr, adapterChecks atomic.Int64
-	byGroup                                       counterSet
-	compiledByGroup                               counterSet
-	errKinds                                      counterSet
-	distinct                                      sync.Map
-	distinctN                                     atomic.Int64
+	// adapter executions: by logger configuration; of programs holding a `print`; not run
+	// because an earlier execution of the same (logger, print / no print) class gave no answer
+	adapterByLogger                                        counterSet
+	adapterPrintRuns, adapterPrintOK, skippedAfterNoAnswer atomic.Int64
+	histSkippedNoAnswer                                    atomic.Int64
+	byGroup                                                counterSet
+	compiledByGroup                                        counterSet
+	errKinds                                               counterSet
+	distinct                                               sync.Map
+	distinctN                                              atomic.Int64
 
 	// H: histories on the cached runtime
 	histPrograms, histSteps, histCacheHits, histCacheMisses atomic.Int64
@@ -237,6 +256,9 @@ func (in *c27HistInput) failPoint() string {
 type c27History struct {
 	group, text string
 	in          []c27HistInput
+	// noAnswer: some adapter execution of this text gave no answer (reported); the text gets
+	// no history, which would park the worker on the same execution
+	noAnswer bool
 }
 
 // the parts of a history
@@ -347,6 +369,135 @@ func (sp c27StoreSpec) mk() *fakeStore {
 	return s
 }
 
+// ---------------------------------------------------------------------------
+// the adapter under every logger configuration, every execution with a deadline
+// ---------------------------------------------------------------------------
+
+// c27LoggerCtx is one configuration of the request context the adapter is executed with.
+// In the server the context of a request always carries the process logger (level set by
+// --debug / --log-level); library callers and tests pass a bare context.
+type c27LoggerCtx struct {
+	Name string
+	Ctx  context.Context
+}
+
+// c27LoggerContexts: no logger at all, and a logger writing to io.Discard at each level of
+// go-libs' logging package (trace, debug, info, error).
+func c27LoggerContexts() []c27LoggerCtx {
+	out := []c27LoggerCtx{{Name: "no-logger", Ctx: context.Background()}}
+	for _, lvl := range []logging.Level{logging.TraceLevel, logging.DebugLevel, logging.InfoLevel, logging.ErrorLevel} {
+		l := logging.NewDefaultLoggerWithLevel(io.Discard, lvl, false, false)
+		out = append(out, c27LoggerCtx{Name: "logger-level=" + lvl.String(), Ctx: logging.ContextWithLogger(context.Background(), l)})
+	}
+	return out
+}
+
+// c27AnswerDeadline: how long an execution may take before it is reported as giving no
+// answer. The VM has no loop and the stores are in memory: an execution takes microseconds,
+// so on any machine, however loaded, a run that is still not back after this long is parked
+// for good (the value is a bound for "never", not a performance expectation).
+const c27AnswerDeadline = 30 * time.Second
+
+type c27AdapterAnswer struct {
+	Logger   string
+	Answered bool // false: nothing came back within c27AnswerDeadline
+	Res      *ledgercontroller.NumscriptExecutionResult
+	Err      error
+	Panic    any
+	Site     string
+}
+
+// c27ExecAdapter runs MachineNumscriptRuntimeAdapter.Execute (a fresh adapter each time, as
+// DefaultNumscriptParser.Parse builds one) once per context, each in its own goroutine, and
+// waits for all of them under ONE deadline. An execution that never returns leaves its
+// goroutine parked; the caller goes on.
+func c27ExecAdapter(prog *program.Program, ctxs []c27LoggerCtx, mkStore func() *fakeStore, vars map[string]string) []c27AdapterAnswer {
+	out := make([]c27AdapterAnswer, len(ctxs))
+	chans := make([]chan c27AdapterAnswer, len(ctxs))
+	for i, lc := range ctxs {
+		out[i].Logger = lc.Name
+		ch := make(chan c27AdapterAnswer, 1)
+		chans[i] = ch
+		go func(lc c27LoggerCtx) {
+			a := c27AdapterAnswer{Logger: lc.Name, Answered: true}
+			defer func() {
+				if p := recover(); p != nil {
+					a.Panic, a.Site = p, panicSite(debug.Stack(), p)
+				}
+				ch <- a
+			}()
+			a.Res, a.Err = ledgercontroller.NewMachineNumscriptRuntimeAdapter(*prog).Execute(lc.Ctx, mkStore(), vars)
+		}(lc)
+	}
+	deadline := time.NewTimer(c27AnswerDeadline)
+	defer deadline.Stop()
+	expired := false
+	for i := range chans {
+		if expired {
+			select {
+			case a := <-chans[i]:
+				out[i] = a
+			default:
+			}
+			continue
+		}
+		select {
+		case a := <-chans[i]:
+			out[i] = a
+		case <-deadline.C:
+			expired = true
+			select {
+			case a := <-chans[i]:
+				out[i] = a
+			default:
+			}
+		}
+	}
+	return out
+}
+
+// programPrints: the compiled program has an OP_PRINT instruction.
+func programPrints(prog *program.Program) bool {
+	ins := prog.Instructions
+	for i := 0; i < len(ins); i++ {
+		switch ins[i] {
+		case program.OP_APUSH:
+			i += 2
+		case program.OP_PRINT:
+			return true
+		}
+	}
+	return false
+}
+
+// muteStdout points file descriptor 1 at /dev/null until restore is called. The adapter
+// builds its vm.Machine itself, so a `print` statement run through it writes "OUT: ..." lines
+// with the machine's default printer (vm.StdOutPrinter, fmt.Println); the protocol lines of
+// the check (VIOLATION / OK, written by Finish after restore) must stay alone on stdout. The
+// swap is done on the descriptor, not on the os.Stdout variable, which printer goroutines
+// read concurrently.
+func muteStdout() (restore func()) {
+	null, err := os.OpenFile(os.DevNull, os.O_WRONLY, 0)
+	if err != nil {
+		return func() {}
+	}
+	saved, err := syscall.Dup(1)
+	if err != nil {
+		null.Close()
+		return func() {}
+	}
+	if err := syscall.Dup3(int(null.Fd()), 1, 0); err != nil {
+		syscall.Close(saved)
+		null.Close()
+		return func() {}
+	}
+	return func() {
+		_ = syscall.Dup3(saved, 1, 0)
+		syscall.Close(saved)
+		null.Close()
+	}
+}
+
 type c27Slot struct {
 	mu    sync.Mutex
 	start time.Time
@@ -421,6 +572,11 @@ func c27() int {
 		}
 	}()
 
+	// `print` statements run through the adapter write on the process's stdout
+	restoreStdout := muteStdout()
+	loggerCtxs := c27LoggerContexts()
+	var noAnswerClasses sync.Map // "program-with(out)-print:<logger>" -> true once an execution gave no answer
+
 	// one case = one (program text, vars, store) triple
 	runCase := func(slot *c27Slot, group, text string, vars map[string]string, mkStore func() *fakeStore, desc map[string]any) {
 		st.cases.Add(1)
@@ -476,9 +632,11 @@ func c27() int {
 				fmt.Sprintf("machine panicked at stage %s in %s: %v | program %q vars %v", res.Stage, res.PanicAt, res.Panic, text, vars), rep())
 			return // the adapter runs the same code
 		}
-		if slot.hist != nil && slot.hist.text == text && !strings.Contains(text, "print") {
-			class, out := c27MachineOutcome(&res)
-			slot.hist.in = append(slot.hist.in, c27HistInput{vars: vars, mk: mkStore, desc: desc, class: class, out: out, stackLeft: res.StackLeft, failP: res.FailP})
+		addHist := func() {
+			if slot.hist != nil && slot.hist.text == text {
+				class, out := c27MachineOutcome(&res)
+				slot.hist.in = append(slot.hist.in, c27HistInput{vars: vars, mk: mkStore, desc: desc, class: class, out: out, stackLeft: res.StackLeft, failP: res.FailP})
+			}
 		}
 		if res.Err != nil {
 			st.ranErr.Add(1)
@@ -492,41 +650,71 @@ func c27() int {
 				samples.Add(map[string]any{"group": group, "program": text, "vars": vars, "store": desc, "postings": postingsString(res.Postings)})
 			}
 		}
-		// (2) the adapter, as createTransaction calls it (skipped for programs that
-		// print: the adapter would write "OUT: ..." lines on stdout)
-		if strings.Contains(text, "print") {
-			return
-		}
+		// (2) the adapter, as createTransaction calls it, under every logger configuration of
+		// the request context; each execution has a deadline
 		if group == "G" && res.Err == nil && !firstOfText {
 			// generated programs: the adapter is exercised on every failing input (the
-			// nil-result oracle) and on the first input of each program
+			// nil-result oracle; bare context) and on the first input of each program (every
+			// logger configuration)
+			addHist()
 			return
 		}
-		var ares *ledgercontroller.NumscriptExecutionResult
-		var aerr error
-		panicked := false
-		func() {
-			defer func() {
-				if p := recover(); p != nil {
-					panicked = true
-					r.Violation("C27:panic:adapter:"+panicSite(debug.Stack(), p), fmt.Sprintf("MachineNumscriptRuntimeAdapter.Execute panicked: %v | program %q vars %v", p, text, vars), rep())
+		ctxs := loggerCtxs
+		if group == "G" && !firstOfText {
+			ctxs = loggerCtxs[:1]
+		}
+		prints := programPrints(prog)
+		class := "program-without-print"
+		if prints {
+			class = "program-with-print"
+		}
+		var run []c27LoggerCtx
+		for _, lc := range ctxs {
+			if _, hung := noAnswerClasses.Load(class + ":" + lc.Name); hung {
+				st.skippedAfterNoAnswer.Add(1)
+				if slot.hist != nil && slot.hist.text == text {
+					slot.hist.noAnswer = true
 				}
-			}()
-			ares, aerr = ledgercontroller.NewMachineNumscriptRuntimeAdapter(*prog).Execute(context.Background(), mkStore(), vars)
-		}()
-		if panicked {
-			return
+				continue
+			}
+			run = append(run, lc)
 		}
-		st.adapterChecks.Add(1)
-		if aerr != nil && ares != nil {
-			r.Violation("C27:result-returned-with-error", fmt.Sprintf("adapter returned error %q together with a result holding %d postings | program %q", shortErr(aerr), len(ares.Postings), text), rep())
+		for _, a := range c27ExecAdapter(prog, run, mkStore, vars) {
+			st.adapterChecks.Add(1)
+			st.adapterByLogger.Add(a.Logger)
+			if prints {
+				st.adapterPrintRuns.Add(1)
+			}
+			ares, aerr := a.Res, a.Err
+			o := rep()
+			o["logger"] = a.Logger
+			switch {
+			case !a.Answered:
+				noAnswerClasses.Store(class+":"+a.Logger, true)
+				if slot.hist != nil && slot.hist.text == text {
+					slot.hist.noAnswer = true
+				}
+				r.Violation("C27:no-answer:adapter:"+class+":"+a.Logger,
+					fmt.Sprintf("MachineNumscriptRuntimeAdapter.Execute gave no answer (neither a result nor an error) within %s, context with %s; the machine run step by step on the same input answers %s | program %q vars %v", c27AnswerDeadline, a.Logger, func() string { c, _ := c27MachineOutcome(&res); return c }(), text, vars), o)
+				continue
+			case a.Panic != nil:
+				r.Violation("C27:panic:adapter:"+a.Site, fmt.Sprintf("MachineNumscriptRuntimeAdapter.Execute panicked (context with %s): %v | program %q vars %v", a.Logger, a.Panic, text, vars), o)
+				continue
+			}
+			if prints && aerr == nil {
+				st.adapterPrintOK.Add(1)
+			}
+			if aerr != nil && ares != nil {
+				r.Violation("C27:result-returned-with-error", fmt.Sprintf("adapter returned error %q together with a result holding %d postings | program %q", shortErr(aerr), len(ares.Postings), text), o)
+			}
+			if aerr == nil && ares == nil {
+				r.Violation("C27:nil-result-without-error", fmt.Sprintf("adapter returned neither result nor error | program %q", text), o)
+			}
+			if (aerr == nil) != (res.Err == nil && res.Panic == nil) {
+				r.Violation("C27:adapter-and-machine-disagree", fmt.Sprintf("same input: direct machine err=%v, adapter (context with %s) err=%v | program %q", res.Err, a.Logger, aerr, text), o)
+			}
 		}
-		if aerr == nil && ares == nil {
-			r.Violation("C27:nil-result-without-error", fmt.Sprintf("adapter returned neither result nor error | program %q", text), rep())
-		}
-		if (aerr == nil) != (res.Err == nil && res.Panic == nil) {
-			r.Violation("C27:adapter-and-machine-disagree", fmt.Sprintf("same input: direct machine err=%v, adapter err=%v | program %q", res.Err, aerr, text), rep())
-		}
+		addHist()
 	}
 
 	// ---- H: one history = the inputs of one program, in order, on ONE cached runtime ------
@@ -793,6 +981,10 @@ func c27() int {
 		f()
 		h := slot.hist
 		slot.hist = nil
+		if h.noAnswer {
+			st.histSkippedNoAnswer.Add(1)
+			return
+		}
 		if gp == nil {
 			runHistory(slot, h, c27HistChain|c27HistFull)
 			return
@@ -832,6 +1024,102 @@ func c27() int {
 	uniforms := []*big.Int{big.NewInt(-3), big.NewInt(0), big.NewInt(5), big.NewInt(100), new(big.Int).Lsh(big.NewInt(1), 64)}
 
 	groupsDone := []string{}
+	// ---- seed / V / S: the unmutated seeds, adversarial variables and stores on them; all
+	// the inputs of a seed then form its history. FIRST: the group is small and holds the
+	// statement kinds the generated space has not (print, fail, comments, expressions), so a
+	// time cut never drops them -----------------------------------------------------------
+	seedCases := func(slot *c27Slot, si int, seed string, prog *program.Program) {
+		for _, u := range uniforms {
+			sp := c27StoreSpec{Uniform: u.String()}
+			runCase(slot, "seed", seed, nil, sp.mk, map[string]any{"seed": si, "uniform_balance": u.String()})
+		}
+		names, defaults := declaredVars(prog)
+		cp := func() map[string]string {
+			m := map[string]string{}
+			for k, v := range defaults {
+				m[k] = v
+			}
+			return m
+		}
+		goodSpec := c27StoreSpec{Uniform: "5"}
+		good := goodSpec.mk
+		for _, n := range names {
+			for _, adv := range c27AdvStrings {
+				m := cp()
+				m[n] = adv
+				runCase(slot, "V", seed, m, good, map[string]any{"seed": si, "var": n, "value": adv, "uniform_balance": "5"})
+			}
+			m := cp()
+			delete(m, n)
+			runCase(slot, "V", seed, m, good, map[string]any{"seed": si, "missing_var": n, "uniform_balance": "5"})
+			for _, js := range c27AdvJSON {
+				doc := map[string]json.RawMessage{}
+				for k, v := range defaults {
+					b, _ := json.Marshal(v)
+					doc[k] = b
+				}
+				doc[n] = json.RawMessage(js)
+				raw, _ := json.Marshal(map[string]any{"plain": seed, "vars": doc})
+				var vars map[string]string
+				func() {
+					defer func() {
+						if p := recover(); p != nil {
+							r.Violation("C27:panic:vars-json:"+panicSite(debug.Stack(), p), fmt.Sprintf("decoding script vars panicked: %v | json %s", p, raw), map[string]any{"json": string(raw)})
+						}
+					}()
+					var s1 vm.ScriptV1
+					if err := json.Unmarshal(raw, &s1); err != nil {
+						return
+					}
+					vars = s1.ToCore().Vars
+				}()
+				if vars != nil {
+					runCase(slot, "V", seed, vars, good, map[string]any{"seed": si, "var": n, "json_value": js, "uniform_balance": "5"})
+				}
+			}
+		}
+		m := cp()
+		m["extra"] = "x"
+		runCase(slot, "V", seed, m, good, map[string]any{"seed": si, "extra_var": "extra", "uniform_balance": "5"})
+		runCase(slot, "V", seed, map[string]string{}, good, map[string]any{"seed": si, "vars": "none", "uniform_balance": "5"})
+		// stores
+		two64 := new(big.Int).Lsh(big.NewInt(1), 64)
+		ten30 := new(big.Int).Exp(big.NewInt(10), big.NewInt(30), nil)
+		for _, u := range []*big.Int{new(big.Int).Neg(ten30), new(big.Int).Neg(two64), big.NewInt(-1), big.NewInt(1), two64, ten30} {
+			sp := c27StoreSpec{Uniform: u.String()}
+			runCase(slot, "S", seed, cp(), sp.mk, map[string]any{"seed": si, "uniform_balance": u.String()})
+		}
+		storeCase := func(what string, sp c27StoreSpec) {
+			sp.Uniform = "5"
+			runCase(slot, "S", seed, cp(), sp.mk, map[string]any{"seed": si, "store": what, "store_spec": sp})
+		}
+		storeCase("GetBalances fails", c27StoreSpec{BalErr: true})
+		storeCase("GetAccount fails", c27StoreSpec{AccErr: true})
+		storeCase("no account exists", c27StoreSpec{NoAccounts: true, Meta: map[string]map[string]string{}})
+		storeCase("metadata keys missing", c27StoreSpec{Meta: map[string]map[string]string{"m": {}}})
+		for _, bad := range []string{"", "x y", "-1", "COIN -1", "COIN", "3/2", "world", "\x00"} {
+			storeCase("metadata values = "+fmt.Sprintf("%q", bad), c27StoreSpec{Meta: map[string]map[string]string{"m": {"acc": bad, "por": bad, "mon": bad}}})
+		}
+		storeCase("GetBalances returns an empty map", c27StoreSpec{DropBalances: true})
+	}
+	okV := true
+	for si, seed := range c27Seeds {
+		si, seed := si, seed
+		if !submit(func(slot *c27Slot) {
+			prog, err := compiler.Compile(seed)
+			if err != nil {
+				r.EngineError(fmt.Sprintf("seed %d does not compile: %v", si, err))
+				return
+			}
+			withHistory(slot, "seed+V+S", seed, nil, func() { seedCases(slot, si, seed, prog) })
+		}) {
+			okV = false
+		}
+	}
+	if okV {
+		groupsDone = append(groupsDone, "seed", "V", "S")
+	}
+
 	// ---- G: generated programs ----------------------------------------------------
 	sp := numscriptSpace(false)
 	gStages := sp.Stages
@@ -942,100 +1230,6 @@ func c27() int {
 		groupsDone = append(groupsDone, "B")
 	}
 
-	// ---- seed / V / S: the unmutated seeds, adversarial variables and stores on them; all
-	// the inputs of a seed then form its history ------------------------------------------
-	seedCases := func(slot *c27Slot, si int, seed string, prog *program.Program) {
-		for _, u := range uniforms {
-			sp := c27StoreSpec{Uniform: u.String()}
-			runCase(slot, "seed", seed, nil, sp.mk, map[string]any{"seed": si, "uniform_balance": u.String()})
-		}
-		names, defaults := declaredVars(prog)
-		cp := func() map[string]string {
-			m := map[string]string{}
-			for k, v := range defaults {
-				m[k] = v
-			}
-			return m
-		}
-		goodSpec := c27StoreSpec{Uniform: "5"}
-		good := goodSpec.mk
-		for _, n := range names {
-			for _, adv := range c27AdvStrings {
-				m := cp()
-				m[n] = adv
-				runCase(slot, "V", seed, m, good, map[string]any{"seed": si, "var": n, "value": adv, "uniform_balance": "5"})
-			}
-			m := cp()
-			delete(m, n)
-			runCase(slot, "V", seed, m, good, map[string]any{"seed": si, "missing_var": n, "uniform_balance": "5"})
-			for _, js := range c27AdvJSON {
-				doc := map[string]json.RawMessage{}
-				for k, v := range defaults {
-					b, _ := json.Marshal(v)
-					doc[k] = b
-				}
-				doc[n] = json.RawMessage(js)
-				raw, _ := json.Marshal(map[string]any{"plain": seed, "vars": doc})
-				var vars map[string]string
-				func() {
-					defer func() {
-						if p := recover(); p != nil {
-							r.Violation("C27:panic:vars-json:"+panicSite(debug.Stack(), p), fmt.Sprintf("decoding script vars panicked: %v | json %s", p, raw), map[string]any{"json": string(raw)})
-						}
-					}()
-					var s1 vm.ScriptV1
-					if err := json.Unmarshal(raw, &s1); err != nil {
-						return
-					}
-					vars = s1.ToCore().Vars
-				}()
-				if vars != nil {
-					runCase(slot, "V", seed, vars, good, map[string]any{"seed": si, "var": n, "json_value": js, "uniform_balance": "5"})
-				}
-			}
-		}
-		m := cp()
-		m["extra"] = "x"
-		runCase(slot, "V", seed, m, good, map[string]any{"seed": si, "extra_var": "extra", "uniform_balance": "5"})
-		runCase(slot, "V", seed, map[string]string{}, good, map[string]any{"seed": si, "vars": "none", "uniform_balance": "5"})
-		// stores
-		two64 := new(big.Int).Lsh(big.NewInt(1), 64)
-		ten30 := new(big.Int).Exp(big.NewInt(10), big.NewInt(30), nil)
-		for _, u := range []*big.Int{new(big.Int).Neg(ten30), new(big.Int).Neg(two64), big.NewInt(-1), big.NewInt(1), two64, ten30} {
-			sp := c27StoreSpec{Uniform: u.String()}
-			runCase(slot, "S", seed, cp(), sp.mk, map[string]any{"seed": si, "uniform_balance": u.String()})
-		}
-		storeCase := func(what string, sp c27StoreSpec) {
-			sp.Uniform = "5"
-			runCase(slot, "S", seed, cp(), sp.mk, map[string]any{"seed": si, "store": what, "store_spec": sp})
-		}
-		storeCase("GetBalances fails", c27StoreSpec{BalErr: true})
-		storeCase("GetAccount fails", c27StoreSpec{AccErr: true})
-		storeCase("no account exists", c27StoreSpec{NoAccounts: true, Meta: map[string]map[string]string{}})
-		storeCase("metadata keys missing", c27StoreSpec{Meta: map[string]map[string]string{"m": {}}})
-		for _, bad := range []string{"", "x y", "-1", "COIN -1", "COIN", "3/2", "world", "\x00"} {
-			storeCase("metadata values = "+fmt.Sprintf("%q", bad), c27StoreSpec{Meta: map[string]map[string]string{"m": {"acc": bad, "por": bad, "mon": bad}}})
-		}
-		storeCase("GetBalances returns an empty map", c27StoreSpec{DropBalances: true})
-	}
-	okV := true
-	for si, seed := range c27Seeds {
-		si, seed := si, seed
-		if !submit(func(slot *c27Slot) {
-			prog, err := compiler.Compile(seed)
-			if err != nil {
-				r.EngineError(fmt.Sprintf("seed %d does not compile: %v", si, err))
-				return
-			}
-			withHistory(slot, "seed+V+S", seed, nil, func() { seedCases(slot, si, seed, prog) })
-		}) {
-			okV = false
-		}
-	}
-	if okV {
-		groupsDone = append(groupsDone, "seed", "V", "S")
-	}
-
 	// ---- H, second pass: the full fail x ok product of the G programs with <= histCap inputs ---
 	// (every task that defers a program was submitted above; wait for them)
 	firstPassDone := func() bool {
@@ -1093,6 +1287,17 @@ func c27() int {
 		exhaustive.Store(false)
 	}
 	close(stopWatch)
+	// let the printer goroutines of the last executions write their lines before fd 1 is
+	// handed back (they end when their machine's Execute returns; parked executions never print)
+	for i, last := 0, -1; i < 50; i++ {
+		n := runtime.NumGoroutine()
+		if n == last {
+			break
+		}
+		last = n
+		time.Sleep(20 * time.Millisecond)
+	}
+	restoreStdout()
 
 	if r.ViolationCount() == 0 {
 		cg := st.compiledByGroup.Map()
@@ -1105,6 +1310,10 @@ func c27() int {
 			r.EngineError("vacuous: no runtime error was ever returned (the nil-result-on-error oracle never applied)")
 		case st.ranOK.Load() == 0:
 			r.EngineError("vacuous: no run succeeded")
+		case st.adapterPrintOK.Load() == 0:
+			r.EngineError("vacuous: no program with a `print` statement ran to completion through the adapter")
+		case len(st.adapterByLogger.Map()) != len(loggerCtxs):
+			r.EngineError(fmt.Sprintf("vacuous: the adapter did not run under every logger configuration: %v", st.adapterByLogger.Map()))
 		case st.histPrograms.Load() == 0 || st.histSteps.Load() == 0:
 			r.EngineError("vacuous: no history was run on a cached runtime")
 		case st.histCacheHits.Load() == 0:
@@ -1122,19 +1331,30 @@ func c27() int {
 	cov := ev.Coverage{
 		"evaluations":         st.cases.Load(),
 		"distinct_nontrivial": st.distinctN.Load(),
-		"rule": fmt.Sprintf("G: %s x every input (one case for a program the compiler rejects); M: every single-token delete/duplicate/replace(by each of %d menu tokens) of %d seed programs, compiled mutants x %d uniform balances with default variable values; B: all %d-letter-alphabet byte strings of length 0..3; V: every seed x every declared variable x %d adversarial strings + %d adversarial JSON values (through vm.ScriptV1.ToCore), missing / extraneous / no variables; S: every seed x extreme balances (+-2^64, +-10^30, +-1), failing or empty store answers, missing and ill-typed metadata; H (histories): for every program of G, every compiled mutant of M, every compiled string of B and every seed (inputs of seed+V+S), programs with `print` excepted: all its inputs as ONE sequential history on the NumscriptRuntime that NewCachedNumscriptParser(NewDefaultNumscriptParser(), MaxCount 1024).Parse(text) returns (Parse before every execution: first a miss, then hits on the same runtime object) = every input once in enumeration order, then a b a for every ordered (input a failing on a fresh runtime, input b succeeding on a fresh runtime) pair, i.e. every (failing, succeeding) and (succeeding, failing) pair of inputs back to back — G programs in two passes: with the single-run cases of the program, the chain and the REDUCED product {first failing input of every fail point (error stage:kind, instruction pointer, stack depth at the error)} x {every succeeding input} and {every failing input} x {first succeeding input}, both orders; after all the other groups (groups_fully_covered: H:chain+reduced-product, then H:full-product), the remaining pairs of the FULL product for every G program with at most %d inputs (at most 2 balance-relevant accounts and one two-valued variable; a program with 3 such accounts has up to 432 inputs and 46 000 pairs and keeps the reduced product); each execution must answer what a fresh runtime answers (no panic, same postings and metadata, same error stage:kind); a history stops at its first divergence; distinct_nontrivial = distinct program texts that compiled AND ran to completion without error at least once",
-			gDesc, len(c27TokenMenu), len(c27Seeds), len(uniforms), len(c27Alphabet), len(c27AdvStrings), len(c27AdvJSON), histCap),
-		"samples":                       samples.List(),
-		"exhaustive":                    exhaustive.Load(),
-		"groups_fully_covered":          groupsDone,
-		"cases_by_group":                st.byGroup.Map(),
-		"compiled_cases_by_group":       st.compiledByGroup.Map(),
-		"cases_compiled":                st.compiled.Load(),
-		"runs_ok":                       st.ranOK.Load(),
-		"runs_returning_error":          st.ranErr.Load(),
-		"run_error_kinds":               st.errKinds.Map(),
-		"adapter_result_checks":         st.adapterChecks.Load(),
-		"traces_validated_against_impl": st.cases.Load(),
+		"rule": fmt.Sprintf("seed+V+S run first, then G, M, B. Every compiled case runs on the machine step by step AND through MachineNumscriptRuntimeAdapter.Execute — programs with `print` included — under each of %d logger configurations of the request context (%s; G programs: all of them on the first input of each program, the bare context on every failing input), each execution with a %s deadline (no answer = violation); G: %s x every input (one case for a program the compiler rejects); M: every single-token delete/duplicate/replace(by each of %d menu tokens) of %d seed programs, compiled mutants x %d uniform balances with default variable values; B: all %d-letter-alphabet byte strings of length 0..3; V: every seed x every declared variable x %d adversarial strings + %d adversarial JSON values (through vm.ScriptV1.ToCore), missing / extraneous / no variables; S: every seed x extreme balances (+-2^64, +-10^30, +-1), failing or empty store answers, missing and ill-typed metadata; H (histories): for every program of G, every compiled mutant of M, every compiled string of B and every seed (inputs of seed+V+S), all its inputs as ONE sequential history on the NumscriptRuntime that NewCachedNumscriptParser(NewDefaultNumscriptParser(), MaxCount 1024).Parse(text) returns (Parse before every execution: first a miss, then hits on the same runtime object) = every input once in enumeration order, then a b a for every ordered (input a failing on a fresh runtime, input b succeeding on a fresh runtime) pair, i.e. every (failing, succeeding) and (succeeding, failing) pair of inputs back to back — G programs in two passes: with the single-run cases of the program, the chain and the REDUCED product {first failing input of every fail point (error stage:kind, instruction pointer, stack depth at the error)} x {every succeeding input} and {every failing input} x {first succeeding input}, both orders; after all the other groups (groups_fully_covered: H:chain+reduced-product, then H:full-product), the remaining pairs of the FULL product for every G program with at most %d inputs (at most 2 balance-relevant accounts and one two-valued variable; a program with 3 such accounts has up to 432 inputs and 46 000 pairs and keeps the reduced product); each execution must answer what a fresh runtime answers (no panic, same postings and metadata, same error stage:kind); a history stops at its first divergence; distinct_nontrivial = distinct program texts that compiled AND ran to completion without error at least once",
+			len(loggerCtxs), strings.Join(func() []string {
+				var n []string
+				for _, lc := range loggerCtxs {
+					n = append(n, lc.Name)
+				}
+				return n
+			}(), ", "), c27AnswerDeadline, gDesc, len(c27TokenMenu), len(c27Seeds), len(uniforms), len(c27Alphabet), len(c27AdvStrings), len(c27AdvJSON), histCap),
+		"samples":                 samples.List(),
+		"exhaustive":              exhaustive.Load(),
+		"groups_fully_covered":    groupsDone,
+		"cases_by_group":          st.byGroup.Map(),
+		"compiled_cases_by_group": st.compiledByGroup.Map(),
+		"cases_compiled":          st.compiled.Load(),
+		"runs_ok":                 st.ranOK.Load(),
+		"runs_returning_error":    st.ranErr.Load(),
+		"run_error_kinds":         st.errKinds.Map(),
+		"adapter_result_checks":   st.adapterChecks.Load(),
+		"adapter_executions_by_logger_configuration":                      st.adapterByLogger.Map(),
+		"adapter_executions_of_programs_with_print":                       st.adapterPrintRuns.Load(),
+		"adapter_executions_of_programs_with_print_that_succeeded":        st.adapterPrintOK.Load(),
+		"adapter_executions_skipped_after_a_no_answer_of_their_class":     st.skippedAfterNoAnswer.Load(),
+		"histories_skipped_because_an_adapter_execution_of_the_text_hung": st.histSkippedNoAnswer.Load(),
+		"traces_validated_against_impl":                                   st.cases.Load(),
 		"histories": map[string]any{
 			"programs_with_a_history":                                    st.histPrograms.Load(),
 			"executions_on_a_cached_runtime":                             st.histSteps.Load(),
@@ -1156,8 +1376,9 @@ func c27() int {
 	}
 	return r.Finish(cov, []string{
 		"`arbitrary byte strings` is covered as all strings of length <= 3 over a 20-byte alphabet plus token-level mutants; longer random strings are not enumerated",
-		"hang = a single case not returning within 60 s, observed by a watchdog over the workers' current case (the VM has no loops; this guards the ANTLR parser)",
-		"programs containing `print` skip the adapter path only (it would print on stdout); they still run on the machine directly",
+		"hang = a single case not returning within 60 s, observed by a watchdog over the workers' current case (the VM has no loops; this guards the ANTLR parser, the direct machine run and the histories); adapter executions of the single-run space have their own deadline of " + c27AnswerDeadline.String() + " each, in a goroutine of their own: `no answer` is reported per (program with / without print, logger configuration) class, the remaining executions of that class are skipped (counted) and the texts concerned get no history. Neither is a performance oracle: an execution is microseconds of in-memory work",
+		"programs containing `print` run through the adapter like the others; the machine's default printer writes their values on stdout, so file descriptor 1 is pointed at /dev/null from the first case to the last (the direct machine run uses a discarding printer)",
+		"logger configurations: context.Background() (logging.FromContext then builds a default info-level logger on stderr) and logging.NewDefaultLoggerWithLevel(io.Discard, level) for the four levels of go-libs/v5/pkg/observe/log",
 		"H: the reference answer of an input is its direct machine run on a new vm.Machine (what a fresh adapter does); before a divergence is reported the input is run again on a fresh DefaultNumscriptParser runtime, and a divergence that the fresh adapter shares is reported as adapter-and-machine-disagree instead",
 		"H: a history runs in one goroutine with one CachedParser per worker (production shares one per process; a shared one would let another worker's programs evict the runtime mid-history); goroutines are not pinned to a P, a runtime that recycles objects through a per-P sync.Pool may therefore miss now and then: every failing input is re-executed before each succeeding input, so each (failing, succeeding) pair is an independent occasion",
 		"H: every compiled text with at least one input has a history (G, M, B, seeds); a program with a single input runs it twice",
